@@ -26,7 +26,23 @@ def add_lattice_universe(d, rng, u, next_id, new_universe, kind=None, lat_tr_p=0
     cell_id = next_id[0]
     next_id[0] += rng.choice([1, 2])
     centre = [rng.choice(G.HALF) / 2 for _ in range(3)]
-    if kind.startswith('rect') or kind == 'skew2':
+    if kind in ('rppmac', 'boxmac', 'rhpmac'):
+        # the unit cell is one macrobody: its facets, in the order of their numbers, are the listed surfaces
+        sid = max([s_.id for s_ in d.surfs], default=0) + 1
+        if kind == 'rppmac':
+            w = [rng.choice([1.0, 1.5, 2.0]) for _ in range(3)]
+            ps = [v for i in range(3) for v in (centre[i] - w[i], centre[i] + w[i])]
+            d.surfs.append(D.Surf(sid, 'rpp', ps))
+        elif kind == 'boxmac':
+            a, b, cc = G.ortho_triple(rng)
+            a, b, cc = G.scale(a, rng.choice([1., .5])), G.scale(b, rng.choice([1., .5])), G.scale(cc, rng.choice([1., .5]))
+            d.surfs.append(D.Surf(sid, 'box', list(centre) + a + b + cc))
+        else:
+            mn, ps = G.macrobody(rng, ['rhp9', 'rhp9', 'rhp15', 'hex'])
+            d.surfs.append(D.Surf(sid, mn, list(centre) + ps[3:]))
+        leaves = [('s', -sid)]
+        dim = 3
+    elif kind.startswith('rect') or kind == 'skew2':
         dim = {'rect1': 1, 'rect2': 2, 'rect3': 3, 'skew2': 2}[kind]
         if kind == 'skew2':
             normals = rng.choice([([2., -1., 0.], [0., 1., 0.]), ([1., 0., 0.], [1., 2., 0.]), ([1., 1., 0.], [0., 0., 1.])])
@@ -120,7 +136,7 @@ def add_lattice_universe(d, rng, u, next_id, new_universe, kind=None, lat_tr_p=0
     us = [rng.choice(pool) for _ in range(n_el)]
     mat = rng.choice([1, 2, 3])
     cell = D.Cell(cell_id, e, mat=mat, rho=rng.choice(['-2.7', '-1.0', '0.05']), imp=1, u=u,
-                  fill={'ranges': ranges, 'us': us, 'tr': None}, lat=1 if kind.startswith(('rect', 'skew')) else 2)
+                  fill={'ranges': ranges, 'us': us, 'tr': None}, lat=1 if kind.startswith(('rect', 'skew', 'rpp', 'box')) else 2)
     if rng.random() < lat_tr_p:
         m, cls = G.random_motion(rng, rng.choice(rot_classes) if rot_classes else ('mirror' if rng.random() < 0.1 else None))
         cell.fill['tr'] = m
